@@ -45,6 +45,10 @@ def deep_subset(want, got):
     return type(want) == type(got) and want == got
 
 
+def mr_pos(kd, req):
+    return kd["rqpos"] if kd["rqpos"] >= 0 else len(req) + kd["rqpos"]
+
+
 def expected_values(params, v, req=None):
     """the caller's values plus defaults, constants and the mirrored request bytes (what decode must return);
     length keys and reserved parameters are not predicted here"""
@@ -73,10 +77,10 @@ def expected_values(params, v, req=None):
                 exp[nm] = kd["dflt"]
         elif k in ("coded", "physconst"):
             exp[nm] = kd["v"]
-        elif k == "matchreq" and req is not None and len(req) >= kd["rqpos"] + kd["len"]:
+        elif k == "matchreq" and req is not None and 0 <= mr_pos(kd, req) and len(req) >= mr_pos(kd, req) + kd["len"]:
             # MATCHING-REQUEST-PARAM: the bytes of the triggering request (they are read back as an unsigned integer,
-            # least significant byte first)
-            exp[nm] = int.from_bytes(bytes(req)[kd["rqpos"]:kd["rqpos"] + kd["len"]], "little")
+            # least significant byte first); a negative position counts from the end of the request
+            exp[nm] = int.from_bytes(bytes(req)[mr_pos(kd, req):mr_pos(kd, req) + kd["len"]], "little")
     return exp
 
 
@@ -501,7 +505,7 @@ def main(pid, argv=None):
                 elif impl[0] == 0 and pid in ("C01", "C04", "C03"):
                     pdu = bytes(impl[1])
                     short = [p for p in c.params if p["kind"]["k"] == "matchreq" and e["req"] is not None and
-                             len(e["req"]) < p["kind"]["rqpos"] + p["kind"]["len"]]
+                             (mr_pos(p["kind"], e["req"]) < 0 or len(e["req"]) < mr_pos(p["kind"], e["req"]) + p["kind"]["len"])]
                     if short and pid == "C04":
                         bad = (f"a PDU ({pdu.hex()}) was produced although the triggering request {bytes(e['req']).hex()!r} "
                                f"does not contain the bytes which {short[0]['name']} mirrors")
